@@ -50,6 +50,14 @@ def run_one(s):
             return watched(lambda: dom.sample_random_uniform(d=s["d"], params=par), 20)
         if law == "grid":
             return watched(lambda: dom.sample_grid(n=N, params=par), 20)
+        if law == "uniform_acc":       # many small random samples on the same object, accumulated (s["d"] calls of s["std"] points each)
+            def acc_u():
+                parts = [dom.sample_random_uniform(n=s["std"], params=par) for _ in range(s["d"])]
+                out = parts[0]
+                for q in parts[1:]:
+                    out = out | q
+                return out
+            return watched(acc_u, 30)
         if law == "grid_acc":          # many small grids on the same object, accumulated (s["d"] calls of s["std"] points each)
             def acc():
                 parts = [dom.sample_grid(n=s["std"], params=par) for _ in range(s["d"])]
